@@ -396,6 +396,74 @@ func checkStartupWalk(c *Ctx, rule string) {
 			}
 		}
 		c.Floor(rule, "startup stored-vs-backend comparisons", found, 1)
+		// ... and it comes first: nothing that scans the backend's chain forward and advances the synced-to stamp
+		// (recovery) may run before it. Such a step continues from the remembered tip — a stale one too, PutSyncedTo
+		// only requires a predecessor to exist — and leaves the new tip on the best chain, so the walk that follows stops
+		// at once and the stale block below stays.
+		filterBlocks := map[*ssa.Function]bool{}
+		for _, f := range p.RepoFuncs {
+			if f.Name() == "FilterBlocks" && shortPkg(fnPkgPath(f)) == "chain" {
+				filterBlocks[f] = true
+			}
+		}
+		isWalk := func(ins ssa.Instruction) bool {
+			call, ok := ins.(*ssa.Call)
+			if !ok {
+				return false
+			}
+			for _, cl := range funcArgs(call) {
+				for _, f := range Closures(cl) {
+					for _, ec := range callsNamed(f, "Equal") {
+						a, b := originKinds(p, ec.Call.Args[0]), originKinds(p, ec.Call.Args[1])
+						if (a["BlockHash"] && b["GetBlockHash"]) || (b["BlockHash"] && a["GetBlockHash"]) {
+							return true
+						}
+					}
+				}
+			}
+			return false
+		}
+		nScan := 0
+		for _, part := range p.regionTop(sw) {
+			for _, ci := range callsOf(part) {
+				call, ok := ci.(*ssa.Call)
+				if !ok || isWalk(call) {
+					continue
+				}
+				g := call.Call.StaticCallee()
+				if g == nil || !p.InRepo(g) || !p.reachSet(g)[setSynced] {
+					continue
+				}
+				scans := false
+				for fb := range filterBlocks {
+					if p.reachSet(g)[fb] {
+						scans = true
+					}
+				}
+				if !scans {
+					for h := range p.reachSet(g) { // through the chain.Interface method
+						if h.Name() == "FilterBlocks" {
+							scans = true
+						}
+					}
+				}
+				if !scans {
+					continue
+				}
+				nScan++
+				after := p.precededInRegion(sw, call, func(f *ssa.Function, at ssa.Instruction) bool {
+					for _, c2 := range callsOf(f) {
+						if isWalk(c2) && c2.Block().Dominates(at.Block()) && (c2.Block() != at.Block() || instrIndex(c2) < instrIndex(at)) {
+							return true
+						}
+					}
+					return false
+				}, 0)
+				c.Check(rule, "startup-walk-precedes-forward-scan:"+g.Name(), call.Pos(), after,
+					"syncWithChain runs "+g.Name()+" (which scans the backend's chain forward and advances the synced-to stamp) before comparing the remembered blocks with the backend's chain: the new blocks are stamped on top of a stale tip, the comparison then starts at a block that IS on the best chain and never reaches the stale one below it")
+			}
+		}
+		c.Floor(rule, "forward-scanning steps of syncWithChain", nScan, 1)
 	}
 
 }
